@@ -370,12 +370,23 @@ def check_files(case, ctx):
     return Info(nz.size >= 2, tuple(labels))
 
 
+def enum_long_blocks(tier):
+    """Blocks of 1e5-4e6 samples with delays of thousands of samples (real search blocks are this long)."""
+    base = [(1_000_003, 4, 3000, 1, "ch1", "F"), (262_144, 16, 100_000, -1, "center", "C")]
+    if tier == "thorough":
+        base += [(4_194_304, 2, 65_536, 1, "min", "C"), (2_000_000, 8, 1_999_990, 1, "max", "F")]
+    for i, (n, nch, span, sign, ref, lay) in enumerate(base):
+        yield {"band": {"nchans": nch, "fch1": 1500.0, "foff": -400.0 / nch, "tsamp": 64e-6, "ref": ref}, "n": n, "span": span, "sign": sign,
+               "seed": 70 + i, "dmsteps": 3, "pulse_t": 12345 + i, "layout": lay, "dm_label": ["zero", "same"][i % 2]}
+
+
 def subchecks(tier):
     return [
         SubCheck("delays", check_delays, strategy=lambda t: strat_delays(),
                  examples={"quick": 3000, "thorough": 150000}, shards={"quick": 4, "thorough": 12}),
         SubCheck("blocks", check_blocks, strategy=lambda t: strat_blocks(t),
                  examples={"quick": 1500, "thorough": 60000}, shards={"quick": 6, "thorough": 16}),
+        SubCheck("long_blocks", check_blocks, enumerate=enum_long_blocks, shards={"quick": 2, "thorough": 4}, budget_s={"quick": 250, "thorough": 1500}),
         SubCheck("files", check_files, strategy=lambda t: strat_files(t),
                  examples={"quick": 600, "thorough": 30000}, shards={"quick": 4, "thorough": 12}),
     ]
